@@ -9,9 +9,9 @@
    handler and applies its bank messages atomically (SaleCorr.v, Bank.v).
    MintTo / MintFor are the airdrop ("admin") mints; Mint is the public / whitelist mint.
 
-   NOT covered by this model: open-edition minters and base minter (model being built by a
-   colleague; C02 is extended to it when merged), token-merge minter (its deposit logic
-   belongs to C17; it shares the airdrop-remainder behaviour recorded below).
+   Part 2 (end of the file): the three open-edition minters and the base minter.
+   NOT covered: the token-merge minter (its deposit logic belongs to C17; by reading, its
+   airdrop path shares the airdrop-remainder behaviour recorded below).
 
    KNOWN DEFECT (DESIGN §8 D6, replayed on the real contracts): an airdrop mint with a
    non-zero airdrop price and an airdrop fee below 100 % leaves `price - fee` in the minter
@@ -325,6 +325,215 @@ Example C02_ex_fee_one_fails :
   = Err.
 Proof. vm_compute. reflexivity. Qed.
 
+
+(* =====================================================================================
+   Part 2: the three open-edition minters (open-edition-minter, -wl-flex, -merkle-wl) and
+   the base minter (models MinterOpen.v, world steps SaleOeCorr.v).
+   Open edition: same exact-payment rule; the fee is split WITH the factory's developer
+   address (developer ceil(fee/2), liquidity DAO ceil(rest/5), launchpad DAO what is
+   left; never the featured ratio), and the seller receives price - fee on EVERY kind of
+   mint, airdrops included -- so the full conservation statement holds here without a
+   carve-out.  (An open-edition airdrop on an uncapped collection with airdrop price 0
+   has no price at all: o_mint_price fails and so does the mint.)
+   Base minter: only the collection creator mints; the amount in force is
+   floor(min_mint_price * mint_fee_bps / 10000) in ustars, all of it fair-burned: half
+   (rounded down) burned, the rest to the fair-burn pool; there is no seller.
+   ===================================================================================== *)
+From LP Require Import MinterOpen SaleOeCorr C02OeProofs.
+
+Theorem C02_oe_mint_ok_exact_funds : forall vr s e fp wv o s' ms,
+  (match o with EMint _ _ _ | EMintTo _ _ => true | _ => false end) = true ->
+  ostep vr s e fp wv o = Ok (s', ms) ->
+  exists price dn,
+    o_mint_price s fp wv (match o with EMintTo _ _ => true | _ => false end) = Ok (price, dn) /\
+    ((e_funds e = [] /\ price = 0) \/ e_funds e = [mkCoin dn price]).
+Proof. exact omint_ok_exact_funds. Qed.
+
+Theorem C02_oe_mint_rejects_inexact_payment : forall vr s e fp wv o price dn,
+  (match o with EMint _ _ _ | EMintTo _ _ => true | _ => false end) = true ->
+  o_mint_price s fp wv (match o with EMintTo _ _ => true | _ => false end) = Ok (price, dn) ->
+  ~ ((e_funds e = [] /\ price = 0) \/ e_funds e = [mkCoin dn price]) ->
+  ostep vr s e fp wv o = Err.
+Proof. exact omint_rejects_inexact. Qed.
+
+(* fee = floor(price * bps / 10000), bps = airdrop fee bps for MintTo else mint fee bps;
+   messages: developer, liquidity DAO, launchpad DAO (none when the fee is 0), then the
+   seller's price - fee (none when 0) -- for airdrops too *)
+Theorem C02_oe_fee_and_seller_messages : forall vr s e fp wv o s' ms,
+  (match o with EMint _ _ _ | EMintTo _ _ => true | _ => false end) = true ->
+  ostep vr s e fp wv o = Ok (s', ms) ->
+  let air := match o with EMintTo _ _ => true | _ => false end in
+  exists price dn,
+    o_mint_price s fp wv air = Ok (price, dn) /\
+    may_pay (e_funds e) dn = Ok price /\
+    let fee := price * (if air then ofp_airdrop_fee_bps fp else ofp_mint_fee_bps fp) / 10000 in
+    fee <= price /\
+    (fee <> 0 -> ofp_dev fp <> None) /\
+    SaleOeCorr.bank_of ms =
+      (if fee =? 0 then []
+       else match ofp_dev fp with
+            | Some dv => [Send dv dn ((fee + 1) / 2);
+                          Send A_LIQUIDITY_DAO dn ((fee - (fee + 1) / 2 + 4) / 5);
+                          Send A_LAUNCHPAD_DAO dn (fee - (fee + 1) / 2 - (fee - (fee + 1) / 2 + 4) / 5)]
+            | None => []
+            end)
+      ++ (if price - fee =? 0 then []
+          else [Send (match o_payment s with Some p => p | None => o_admin s end) dn (price - fee)]) /\
+    (air = true -> e_sender e = o_admin s).
+Proof. exact ostep_mint_payment. Qed.
+
+(* the bank messages of every successful open-edition mint add up to exactly the price *)
+Theorem C02_oe_messages_sum_to_price : forall vr s e fp wv o s' ms,
+  (match o with EMint _ _ _ | EMintTo _ _ => true | _ => false end) = true ->
+  ostep vr s e fp wv o = Ok (s', ms) ->
+  exists price dn,
+    o_mint_price s fp wv (match o with EMintTo _ _ => true | _ => false end) = Ok (price, dn) /\
+    sum_out (SaleOeCorr.bank_of ms) = price.
+Proof. exact omint_conservation. Qed.
+
+(* world level, any open-edition call: balances follow the messages, totals are constant *)
+Theorem C02_oe_world_step_balances : forall vr s b st s' b' ms,
+  oe_world_step vr s b st = Ok (s', b', ms) ->
+  ostep vr s (os_env st) (os_fp st) (os_wv st) (os_op st) = Ok (s', ms) /\
+  (forall c, In c (e_funds (os_env st)) -> c_amount c <> 0) /\
+  (forall a d,
+      bal_get b' a d
+      + (if a =? e_sender (os_env st) then paid (e_funds (os_env st)) d else 0)
+      + (if a =? e_contract (os_env st) then debits (SaleOeCorr.bank_of ms) d else 0)
+      = bal_get b a d
+        + (if a =? e_contract (os_env st) then paid (e_funds (os_env st)) d else 0)
+        + credits (SaleOeCorr.bank_of ms) a d) /\
+  (forall d, total b' d = total b d).
+Proof. exact oe_world_step_balances. Qed.
+
+(* world level, any successful open-edition mint, any coincidence of roles: the closed
+   equation (the minter's own terms cancel: it receives the price and sends the price) *)
+Theorem C02_oe_world_mint_equation : forall vr s b st s' b' ms,
+  (match os_op st with EMint _ _ _ | EMintTo _ _ => true | _ => false end) = true ->
+  oe_world_step vr s b st = Ok (s', b', ms) ->
+  let air := match os_op st with EMintTo _ _ => true | _ => false end in
+  let payer := e_sender (os_env st) in
+  let seller := match o_payment s with Some p => p | None => o_admin s end in
+  let dev := match ofp_dev (os_fp st) with Some dv => dv | None => 0 end in
+  exists price dn,
+    o_mint_price s (os_fp st) (os_wv st) air = Ok (price, dn) /\
+    e_funds (os_env st) = (if price =? 0 then [] else [mkCoin dn price]) /\
+    (air = true -> payer = o_admin s) /\
+    let fee := price * (if air then ofp_airdrop_fee_bps (os_fp st) else ofp_mint_fee_bps (os_fp st)) / 10000 in
+    fee <= price /\
+    (fee <> 0 -> ofp_dev (os_fp st) <> None) /\
+    forall a d,
+      bal_get b' a d + (if (a =? payer) && (d =? dn) then price else 0)
+      = bal_get b a d
+        + (if (a =? dev) && (d =? dn) then (fee + 1) / 2 else 0)
+        + (if (a =? A_LIQUIDITY_DAO) && (d =? dn) then (fee - (fee + 1) / 2 + 4) / 5 else 0)
+        + (if (a =? A_LAUNCHPAD_DAO) && (d =? dn)
+           then fee - (fee + 1) / 2 - (fee - (fee + 1) / 2 + 4) / 5 else 0)
+        + (if (a =? seller) && (d =? dn) then price - fee else 0).
+Proof. exact oe_world_mint_equation. Qed.
+
+(* the open-edition minter keeps nothing, on every kind of mint *)
+Theorem C02_oe_minter_balance_unchanged : forall vr s b st s' b' ms,
+  (match os_op st with EMint _ _ _ | EMintTo _ _ => true | _ => false end) = true ->
+  oe_world_step vr s b st = Ok (s', b', ms) ->
+  ~ In (e_contract (os_env st))
+       [e_sender (os_env st); match o_payment s with Some p => p | None => o_admin s end;
+        match ofp_dev (os_fp st) with Some dv => dv | None => 0 end; A_LIQUIDITY_DAO; A_LAUNCHPAD_DAO] ->
+  forall d, bal_get b' (e_contract (os_env st)) d = bal_get b (e_contract (os_env st)) d.
+Proof. exact oe_minter_unchanged. Qed.
+
+(* the property with six different parties (public, whitelist and airdrop mints alike) *)
+Theorem C02_oe_world_mint : forall vr s b st s' b' ms dv,
+  (match os_op st with EMint _ _ _ | EMintTo _ _ => true | _ => false end) = true ->
+  oe_world_step vr s b st = Ok (s', b', ms) ->
+  ofp_dev (os_fp st) = Some dv ->
+  let air := match os_op st with EMintTo _ _ => true | _ => false end in
+  let payer := e_sender (os_env st) in
+  let minter := e_contract (os_env st) in
+  let seller := match o_payment s with Some p => p | None => o_admin s end in
+  NoDup [payer; minter; seller; dv; A_LIQUIDITY_DAO; A_LAUNCHPAD_DAO] ->
+  exists price dn,
+    o_mint_price s (os_fp st) (os_wv st) air = Ok (price, dn) /\
+    let fee := price * (if air then ofp_airdrop_fee_bps (os_fp st) else ofp_mint_fee_bps (os_fp st)) / 10000 in
+    fee <= price /\
+    bal_get b' payer dn + price = bal_get b payer dn /\
+    bal_get b' minter dn = bal_get b minter dn /\
+    bal_get b' seller dn = bal_get b seller dn + (price - fee) /\
+    bal_get b' dv dn = bal_get b dv dn + (fee + 1) / 2 /\
+    bal_get b' A_LIQUIDITY_DAO dn = bal_get b A_LIQUIDITY_DAO dn + (fee - (fee + 1) / 2 + 4) / 5 /\
+    bal_get b' A_LAUNCHPAD_DAO dn
+      = bal_get b A_LAUNCHPAD_DAO dn + (fee - (fee + 1) / 2 - (fee - (fee + 1) / 2 + 4) / 5) /\
+    (forall a d, d <> dn \/ ~ In a [payer; minter; seller; dv; A_LIQUIDITY_DAO; A_LAUNCHPAD_DAO] ->
+                 bal_get b' a d = bal_get b a d).
+Proof. exact oe_world_mint_distinct. Qed.
+
+(* zero-amount sends again: an open-edition fee of 1, 2 or 3 makes a DAO share 0 and the
+   whole mint fails *)
+Theorem C02_oe_mint_with_tiny_fee_fails : forall vr s b st price dn,
+  (match os_op st with EMint _ _ _ | EMintTo _ _ => true | _ => false end) = true ->
+  o_mint_price s (os_fp st) (os_wv st) (match os_op st with EMintTo _ _ => true | _ => false end) = Ok (price, dn) ->
+  1 <= price * (if (match os_op st with EMintTo _ _ => true | _ => false end)
+                then ofp_airdrop_fee_bps (os_fp st) else ofp_mint_fee_bps (os_fp st)) / 10000 <= 3 ->
+  oe_world_step vr s b st = Err.
+Proof. exact omint_with_tiny_fee_fails. Qed.
+
+(* ---- base minter ---- *)
+Theorem C02_base_mint_payment : forall s e creator fee_bps uri_ok s' ms,
+  bstep s e creator fee_bps (BMint uri_ok) = Ok (s', ms) ->
+  creator = Some (e_sender e) /\
+  b_price s * fee_bps / 10000 <> 0 /\
+  e_funds e = [mkCoin NATIVE (b_price s * fee_bps / 10000)] /\
+  SaleOeCorr.bank_of ms =
+    [Burn NATIVE (b_price s * fee_bps / 10000 / 2);
+     FundPool (e_contract e) NATIVE (b_price s * fee_bps / 10000 - b_price s * fee_bps / 10000 / 2)].
+Proof. exact bmint_payment. Qed.
+
+Theorem C02_base_world_mint : forall s b st uri_ok s' b' ms,
+  bs_op st = BMint uri_ok ->
+  base_world_step s b st = Ok (s', b', ms) ->
+  let payer := e_sender (bs_env st) in
+  let minter := e_contract (bs_env st) in
+  let fee := b_price s * bs_fee_bps st / 10000 in
+  NoDup [payer; minter; A_BURNED; A_FAIRBURN_POOL] ->
+  bs_creator st = Some payer /\
+  fee <> 0 /\
+  e_funds (bs_env st) = [mkCoin NATIVE fee] /\
+  bal_get b' payer NATIVE + fee = bal_get b payer NATIVE /\
+  bal_get b' minter NATIVE = bal_get b minter NATIVE /\
+  bal_get b' A_BURNED NATIVE = bal_get b A_BURNED NATIVE + fee / 2 /\
+  bal_get b' A_FAIRBURN_POOL NATIVE = bal_get b A_FAIRBURN_POOL NATIVE + (fee - fee / 2) /\
+  (forall a d, d <> NATIVE \/ ~ In a [payer; minter; A_BURNED; A_FAIRBURN_POOL] -> bal_get b' a d = bal_get b a d) /\
+  (forall d, total b' d = total b d).
+Proof. exact base_world_mint. Qed.
+
+(* concrete evaluations: open-edition airdrop at price 100 with a 5000 bps airdrop fee:
+   fee 50 = developer 25 + liquidity DAO 5 + launchpad DAO 20, seller (payment address 12)
+   gets the other 50, the minter keeps nothing -- the behaviour the vending family lacks *)
+Definition ex_ofp : ofparams := mkOFP 50 0 1000 100 0 5000 10 12 604800 (Some 13).
+Definition ex_os0 : ostate :=
+  mkOS 10 (Some 12) (Some 5) 3 None 1000 (Some 9000) 101 0 (Some 5) 0 0 0 [] [] [] [] [] 0 0 0 [] 0 None.
+Definition ex_obal : bal := (13, 0, 0) :: ex_bal.
+
+Example C02_ex_oe_airdrop_pays_the_seller :
+  match oe_world_step (mkOV false false) ex_os0 ex_obal
+          (mkOStep (mkEnv 2000 10 [mkCoin 0 100] 20) ex_ofp None (EMintTo true 11) true None None [] []) with
+  | Ok (_, b', ms) =>
+      SaleOeCorr.bank_of ms = [Send 13 0 25; Send A_LIQUIDITY_DAO 0 5; Send A_LAUNCHPAD_DAO 0 20; Send 12 0 50] /\
+      (bal_get b' 10 0, bal_get b' 20 0, bal_get b' 12 0, total b' 0) = (900, 0, 50, 2000)
+  | Err => False
+  end.
+Proof. vm_compute. split; reflexivity. Qed.
+
+Example C02_ex_base_mint :
+  match base_world_step (mkBS 1000 0 [] None) ex_bal
+          (mkBStep (mkEnv 2000 10 [mkCoin 0 101] 20) (Some 10) 1010 (BMint true) true None [] []) with
+  | Ok (_, b', ms) =>
+      SaleOeCorr.bank_of ms = [Burn 0 50; FundPool 20 0 51] /\
+      (bal_get b' 10 0, bal_get b' 20 0, bal_get b' A_BURNED 0, bal_get b' A_FAIRBURN_POOL 0) = (899, 0, 50, 51)
+  | Err => False
+  end.
+Proof. vm_compute. split; reflexivity. Qed.
+
 Print Assumptions C02_price_in_force.
 Print Assumptions C02_mint_ok_exact_funds.
 Print Assumptions C02_mint_rejects_inexact_payment.
@@ -341,3 +550,14 @@ Print Assumptions C02_airdrop_remainder_refuted.
 Print Assumptions C02_failed_call_moves_nothing.
 Print Assumptions C02_total_constant_over_histories.
 Print Assumptions C02_mint_with_fee_one_fails.
+Print Assumptions C02_oe_mint_ok_exact_funds.
+Print Assumptions C02_oe_mint_rejects_inexact_payment.
+Print Assumptions C02_oe_fee_and_seller_messages.
+Print Assumptions C02_oe_messages_sum_to_price.
+Print Assumptions C02_oe_world_step_balances.
+Print Assumptions C02_oe_world_mint_equation.
+Print Assumptions C02_oe_minter_balance_unchanged.
+Print Assumptions C02_oe_world_mint.
+Print Assumptions C02_oe_mint_with_tiny_fee_fails.
+Print Assumptions C02_base_mint_payment.
+Print Assumptions C02_base_world_mint.
